@@ -31,22 +31,38 @@ var featureNames = []string{"mountType", "hostPath", "intelRdt", "additionalGids
 
 type c06Case struct {
 	NDev     int     `json:"nDev"`
-	Places   [][]int `json:"places"`   // per feature: list of placements (-1 spec level, k device k)
-	Perm     []int   `json:"perm"`     // device order
-	Declared string  `json:"declared"` // declared cdiVersion
+	Places   [][]int `json:"places"`                     // per feature: list of placements (-1 spec level, k device k)
+	Perm     []int   `json:"perm"`                       // device order
+	Declared string  `json:"declared"`                   // declared cdiVersion
 	OneChar  bool    `json:"oneCharDigitName,omitempty"` // digit-first names are a single digit
+	Pad      int     `json:"plainElementsBefore,omitempty"` // plain list elements placed before (and one after) the featured element
 }
 
-func addFeature(e *specs.ContainerEdits, f int) {
+func addFeature(e *specs.ContainerEdits, f int, pad int) {
 	switch f {
 	case fMountType:
+		for i := 0; i < pad; i++ {
+			e.Mounts = append(e.Mounts, &specs.Mount{HostPath: "/h", ContainerPath: fmt.Sprintf("/plain%d", i)})
+		}
 		e.Mounts = append(e.Mounts, &specs.Mount{HostPath: "/h", ContainerPath: "/c", Type: "tmpfs"})
+		if pad > 0 {
+			e.Mounts = append(e.Mounts, &specs.Mount{HostPath: "/h", ContainerPath: "/after"})
+		}
 	case fHostPath:
+		for i := 0; i < pad; i++ {
+			e.DeviceNodes = append(e.DeviceNodes, &specs.DeviceNode{Path: fmt.Sprintf("/dev/plain%d", i), Type: "c", Major: 1, Minor: 3})
+		}
 		e.DeviceNodes = append(e.DeviceNodes, &specs.DeviceNode{Path: "/dev/x", HostPath: "/dev/y", Type: "c", Major: 1, Minor: 3})
+		if pad > 0 {
+			e.DeviceNodes = append(e.DeviceNodes, &specs.DeviceNode{Path: "/dev/after", Type: "c", Major: 1, Minor: 3})
+		}
 	case fRdt:
 		e.IntelRdt = &specs.IntelRdt{ClosID: "c1"}
 	case fGids:
 		e.AdditionalGIDs = append(e.AdditionalGIDs, 5)
+		if pad > 0 {
+			e.AdditionalGIDs = append(e.AdditionalGIDs, 0)
+		}
 	}
 }
 
@@ -75,9 +91,9 @@ func (c c06Case) build() *specs.Spec {
 					devs[p].Annotations = map[string]string{"k": "v"}
 				}
 			case p == -1:
-				addFeature(&s.ContainerEdits, f)
+				addFeature(&s.ContainerEdits, f, c.Pad)
 			default:
-				addFeature(&devs[p].ContainerEdits, f)
+				addFeature(&devs[p].ContainerEdits, f, c.Pad)
 			}
 		}
 	}
@@ -237,6 +253,7 @@ func TestC06Exhaustive(t *testing.T) {
 				}
 				var firstNeed string
 				c.OneChar = len(c.Places[fDigitName]) > 0 && count%2 == 0
+				c.Pad = int(count % 3)
 				for pi, perm := range perms {
 					c.Perm = perm
 					for vi, v := range declaredPool {
@@ -302,6 +319,7 @@ func genC06(t *rapid.T) c06Case {
 	}
 	c.Perm = rapid.Permutation(seq(nd)).Draw(t, "perm")
 	c.OneChar = rapid.Bool().Draw(t, "oneCharDigitName")
+	c.Pad = rapid.IntRange(0, 2).Draw(t, "plainElementsBefore")
 	if rapid.IntRange(0, 3).Draw(t, "declKind") == 0 {
 		c.Declared = rapid.OneOf(rapid.SampledFrom(declaredPool), rapid.StringMatching(`[0-9v. ]{0,7}`), rapid.String()).Draw(t, "declared")
 		// a leading "v" is a stated don't-care
